@@ -4,6 +4,7 @@
 -/
 import VerdeModel.Model.Coords
 import VerdeModel.Model.Blocks
+import VerdeModel.Model.Windows
 namespace Verde
 open Val
 
@@ -118,7 +119,17 @@ def opsBlocks (op : String) (a : List Val) : Option Val :=
       pure (toVal (varianceToWeights (← optRats (← a[0]?))))
   | _ => none
 
-def dispatchers : List (String → List Val → Option Val) := [opsCoords, opsBlocks]
+def opsWindows (op : String) (a : List Val) : Option Val :=
+  match op with
+  | "rolling" => do
+      let r := rollingWindow (← argAt (List Rat) a 0) (← argAt (List Rat) a 1) (← argAt Rat a 2) (← blockSpecAt a 3)
+      pure (toVal (r.map fun o => (o.east, o.north, o.windows)))
+  | "expanding" => do
+      pure (toVal (expandingWindow (← argAt (List Rat) a 0) (← argAt (List Rat) a 1) (← argAt Rat a 2) (← argAt Rat a 3)
+        (← argAt (List Rat) a 4)))
+  | _ => none
+
+def dispatchers : List (String → List Val → Option Val) := [opsCoords, opsBlocks, opsWindows]
 
 def runLine (line : String) : String :=
   match Val.parseLine line with
